@@ -50,3 +50,13 @@ Proof.
   exists a, P, Q. repeat split; assumption.
 Qed.
 Print Assumptions C10_one_exact.
+
+(** the answer does not depend on which multiple of a scheme is given: two schemes the library calls equivalent make PickAPerm
+    return the same list of rankings, the reported scores being those of one and the same ranking under each scheme *)
+Theorem C10_equivalent_schemes_same_answer : forall one s1 s2 D,
+  nonneg s1 -> nonneg s2 -> is_equivalent_to s1 s2 = true -> D <> [] ->
+  (is_complete D = true \/ (is_equivalent_to s1 unifying = true /\ is_equivalent_to s2 unifying = true)) ->
+  exists a out, pickaperm one s1 D = Ok (Some (kemeny_spec s1 D a), out) /\
+                pickaperm one s2 D = Ok (Some (kemeny_spec s2 D a), out).
+Proof. exact pickaperm_equivalent_schemes. Qed.
+Print Assumptions C10_equivalent_schemes_same_answer.
